@@ -56,7 +56,8 @@ def rules(chk, db):
     ilrules.fix_decode(chk, db, 'FD')
     ilrules.float_bool(chk, db, 'FB')
     read_dispatch(chk, db, 'UE')
-    encrules.read_rules(chk, db, want=('LEN', 'GRD', 'RST'))
+    # ENS: a declared length is demanded from the reader in BYTES before it is honoured (ReadLimitReached category of truncated input)
+    encrules.read_rules(chk, db, want=('LEN', 'GRD', 'RST', 'ENS'))
     chk.rule('CO', 'wrapper decoders are composed of exactly the documented component encodings', minimum=30)
     encrules.composition(chk, db, 'CO', ('ReadPayload', 'Match'))
     chk.rule('NR.r', 'no run-time narrowing integral conversion in any ReadPayload (validation sees the full 64-bit length)', minimum=10)
@@ -75,6 +76,9 @@ def rules(chk, db):
     chk.rule('ST', 'stream reader primitives move exactly the requested bytes and report the stream state', minimum=3)
     chk.rule('SS', 'stream reader status mapping', minimum=1)
     rwrules.check_stream_class(chk, db, 'nop::StreamReader', 'reader', 'ST', 'SS')
+    # ... and the fd reader delivers a well-formed encoding that arrives in pieces: a short read(2) is not the end of the data
+    chk.rule('FDR', 'fd reader: success only when read() returned the requested bytes; a short read continues, 0 => ReadLimitReached', minimum=2)
+    rwrules.check_fd_class(chk, db, 'nop::FdReader', 'reader', 'FDR')
 
 
 def run(chk, db):
